@@ -18,7 +18,7 @@ EXHAUSTIVE = {'quick': False, 'thorough': False}
 TECHNIQUE = 'Coq proof (base-128 canonical form, round trip, decoder agreement, bounded reads by induction on octet lists) + correspondence incl. exhaustive short decoder inputs under ASan'
 LEVEL_TEXT = ('Theorems in Properties_C14.v for all 64-bit values and all octet strings: length = length query <= 10 (<= 5 below 2^32), canonical minimal form, '
               'decode(encode n) = n consuming exactly the encoding (buffer and source decoders, unsigned and signed kinds), agreement of the two decoders on every '
-              'octet string, illegal on max continuation octets, buffer decoder reads only inside [offset, used).  Model tied to the C by correspondence.')
+              'octet string, illegal on max continuation octets, buffer decoder reads only inside [offset, used); reading from ANY source script a success delivers the encoded value and consumes exactly the encoding (C14_from_source_any).  Model tied to the C by correspondence.')
 LEVEL_NOTE = 'Trusted: Coq kernel; hand model of variable-length-integer.c (correspondence-tested); ASan for real accesses on executed cases. No axioms.'
 
 ALPHA = [0x00, 0x01, 0x7f, 0x80, 0x81, 0xff]
